@@ -127,6 +127,7 @@ partial def parseExprW [Inhabited α] (C : Codec α) : P (Expr α) := do
     for _ in [0:k] do
       out := (← parseExprW C) :: out
     pure out.reverse
+  let head := head.replace "~" ""     -- `~` marks an n that was spelled as an integral float
   match head with
   | "C" => pure (.const fl (← numTok C))
   | "V" => pure (.var fl (← tok))
